@@ -113,6 +113,33 @@ def gen_cases(ctx, deep):
         yield (("alg-names", "algstr %d" % i))
 
 
+def jwk_users(ctx):
+    """users of the decoder: an oct JWK's "k" is base64url of the key octets, every one of them (leading and trailing
+    zero octets included); the imported key is read back through jwks_item_key_oct.  Implementation only (the
+    falsifier speaks): the model's statement about this is C08_oct."""
+    import json as _json
+    rng = ctx.rng
+    keys = [b"\x00", b"\x00\x00\x00", b"A\x00", b"\x00A", b"\x00" * 32, rng.randbytes(31) + b"\x00", rng.randbytes(99) + b"\x00\x00",
+            b"\xff" * 33, rng.randbytes(64)] + [rng.randbytes(rng.randrange(1, 80)) + bytes(rng.randrange(0, 3)) for _ in range(60)]
+    lines = []
+    for kb in keys:
+        doc = _json.dumps({"kty": "oct", "k": ref_encode(kb).decode()}).encode()
+        lines += ["jwks 1 del", "jwks 1 load " + hx(doc), "jwks 1 item 0"]
+    rc, eo, err = ctx.run_exec(lines)
+    bad = 0
+    for i, kb in enumerate(keys):
+        out = eo[3 * i + 2] if 3 * i + 2 < len(eo) else "<crash>"
+        got = dict(t.split("=", 1) for t in out.split() if "=" in t)
+        if got.get("oct") != hx(kb) or got.get("bits") != str(8 * len(kb)) or got.get("err") != "0":
+            bad += 1
+            if bad <= 2:
+                ctx.violation("falsifier:jwk-oct-k", "oct JWK whose k is the base64url form of %s imports as key %s (%s bits, err=%s)" % (
+                    hx(kb), got.get("oct"), got.get("bits"), got.get("err")), replay_lines=lines[3 * i:3 * i + 3], detail="impl: %s" % out)
+    if rc != 0:
+        ctx.violation("sanitizer", "executor died (rc=%s) while importing oct keys" % rc, replay_lines=lines[:3 * (len(eo) // 3 + 1)], detail=err[-1500:])
+    ctx.add_suite("jwk-oct-k", evaluations=len(keys), distinct_nontrivial=len(set(keys)), rule="oct JWKs whose k encodes octet strings with leading/trailing zero octets and random ones; imported key read back and compared octet for octet", exhaustive=False, disagreements=0, falsified=bad, samples=[])
+
+
 def run(ctx, model_ok, deep=False):
     per = {}
     # generated lazily and judged in batches of 1M cases, so that the exhaustive tier (16.8M three-byte
@@ -156,6 +183,7 @@ def run(ctx, model_ok, deep=False):
         if len(batch) >= 1000000:
             flush()
     flush()
+    jwk_users(ctx)
     for suite, s in per.items():
         ctx.add_suite(suite, evaluations=s["evaluations"], distinct_nontrivial=len(s["outs"]),
                       rule="distinct = distinct implementation answers (counted up to 200000 per suite); every case compared with the Lean model and judged by the falsifier",
